@@ -18,7 +18,7 @@ void rngVerifReset(void);
 void utilVerifReset(void);
 
 /* ------------------------------------------------------- TSan report hook */
-static volatile int tsan_reports;
+static volatile int tsan_reports, wipe_ctr_races;
 static char tsan_desc[256];
 #ifdef SK_TSAN
 int __tsan_get_report_data(void* report, const char** description, int* count,
@@ -27,18 +27,61 @@ int __tsan_get_report_data(void* report, const char** description, int* count,
 int __tsan_get_report_mop(void* report, unsigned long idx, int* tid, void** addr,
 	int* size, int* write, int* atomic, void** trace, unsigned long trace_size);
 void __sanitizer_symbolize_pc(void* pc, const char* fmt, char* out_buf, unsigned long out_buf_size);
+int __tsan_get_report_loc(void* report, unsigned long idx, const char** type, void** addr,
+	unsigned long* start, unsigned long* size, int* tid, int* fd, int* suppressable,
+	void** trace, unsigned long trace_size);
 static void* cur_report;
+
+/* Both accesses are memWipe's own and the location is a global: the only global memWipe
+   touches is its function-static pattern counter.  That counter is unsynchronised by design
+   in the unchanged library (any two threads that wipe concurrently race on it, whatever they
+   are doing); it carries no generator state, no reference count and no once-flag, so it is not
+   one of the races C18 speaks about.  Counted, not reported (DESIGN 12.4, 12.8). */
+__attribute__((no_sanitize("thread"))) static int is_wipe_counter_race(void* rep, int mc, int lc)
+{
+	int i;
+	const char* type = "";
+	void* addr = 0;
+	unsigned long start = 0, size = 0;
+	int tid, fd, sup;
+	void* tr[1];
+	if (mc < 2 || lc < 1)
+		return 0;
+	for (i = 0; i < 2; ++i)
+	{
+		int t, sz, wr, at;
+		void* a;
+		void* fr[4];
+		char nm[64];
+		memset(fr, 0, sizeof(fr));
+		__tsan_get_report_mop(rep, (unsigned long)i, &t, &a, &sz, &wr, &at, fr, 4);
+		nm[0] = 0;
+		if (fr[0])
+			__sanitizer_symbolize_pc(fr[0], "%f", nm, sizeof(nm));
+		if (strcmp(nm, "memWipe") || sz != 1)
+			return 0;
+	}
+	tr[0] = 0;
+	__tsan_get_report_loc(rep, 0, &type, &addr, &start, &size, &tid, &fd, &sup, tr, 1);
+	return type && !strcmp(type, "global"); /* (the interface reports no size for globals) */
+}
+
 __attribute__((no_sanitize("thread"))) void __tsan_on_report(void* rep)
 {
 	const char* d = "?";
-	int cnt, sc, mc = 0, lc, muc, tc, ut, i;
+	int cnt, sc, mc = 0, lc = 0, muc, tc, ut, i;
 	void* sl[1];
 	char f[2][64];
+	__tsan_get_report_data(rep, &d, &cnt, &sc, &mc, &lc, &muc, &tc, &ut, sl, 1);
+	if (is_wipe_counter_race(rep, mc, lc))
+	{
+		++wipe_ctr_races;
+		return;
+	}
 	++tsan_reports;
 	if (tsan_reports > 1)
 		return;
 	cur_report = rep;
-	__tsan_get_report_data(rep, &d, &cnt, &sc, &mc, &lc, &muc, &tc, &ut, sl, 1);
 	f[0][0] = f[1][0] = 0;
 	for (i = 0; i < mc && i < 2; ++i)
 	{
@@ -440,7 +483,7 @@ static void run_rng(uint64_t seed)
 	replaying = 0, neslog = 0;
 	reset_world(fill);
 	sk_wipe_normalise(); /* memWipe's hidden counter leaks into the generator's additional input */
-	tsan_reports = 0;
+	tsan_reports = 0, wipe_ctr_races = 0;
 	starved_creates = ok_creates = init_victim = 0;
 	dtor_runs = dtor_regs = 0;
 	sk_sched_init(sk_u64(&r), &cfg);
@@ -537,6 +580,8 @@ static void run_rng(uint64_t seed)
 			return;
 		}
 	}
+	if (wipe_ctr_races)
+		sk_count("probe.memwipe_counter_race_not_reported", wipe_ctr_races);
 	if (tsan_reports)
 	{
 		char cls[160];
@@ -750,7 +795,7 @@ static void run_once(uint64_t seed)
 	memset(payload, 0, sizeof(payload));
 	mt_wrap_reset();
 	sk_heap_reset(sk_u64(&r));
-	tsan_reports = 0;
+	tsan_reports = 0, wipe_ctr_races = 0;
 	cfg.strategy = (int)sk_below(&r, 4);
 	cfg.pct_depth = (int)sk_below(&r, 4);
 	cfg.max_steps = 20000;
@@ -839,6 +884,8 @@ static void run_once(uint64_t seed)
 				}
 		}
 	}
+	if (wipe_ctr_races)
+		sk_count("probe.memwipe_counter_race_not_reported", wipe_ctr_races);
 	if (tsan_reports)
 	{
 		char cls[160];
